@@ -20,11 +20,13 @@ def switches(fn):
         if b.term != "switch":
             continue
         cases = {}
+        targets = {}
         default = None
         implicit = None
         for s in b.succs:
             if "case" in s and isinstance(s["case"], dict):
                 cases[s["case"].get("v")] = s["case"].get("e")
+                targets[s["case"].get("v")] = s.get("to")
             elif s.get("default") is True:
                 default = s.get("to")
             elif s.get("default") == "implicit":
@@ -33,7 +35,8 @@ def switches(fn):
         en = (b.sw or {}).get("en")
         out.append({"block": b.id, "enum": en, "cases": cases,
                     "has_default": (b.sw or {}).get("has_default", False),
-                    "default_target": default, "cond": c, "line": b.tline})
+                    "default_target": default, "cond": c, "line": b.tline,
+                    "targets": targets})
     return out
 
 
@@ -43,7 +46,7 @@ def array_tables(fn):
     out = {}
     for b, i, s in fn.all_stmts():
         if s.get("k") == "decl" and isinstance(s.get("init"), dict) and s["init"].get("k") == "init" \
-                and str(s["var"].get("t", "")).endswith("]"):
+                and "[" in str(s["var"].get("t", "")) and all("i" in e for e in s["init"].get("elts", [])):
             ent = {}
             for e in s["init"].get("elts", []):
                 if "i" in e:
@@ -55,4 +58,26 @@ def array_tables(fn):
             if lv.get("k") == "idx" and lv["b"].get("k") == "var" and ir.is_const(lv["i"]) and op == "=":
                 t = out.setdefault(lv["b"]["n"], {"size": None, "entries": {}, "line": s.get("line"), "kind": "assign"})
                 t["entries"][ir.strip(lv["i"])["v"]] = rhs
+    return out
+
+
+def first_calls_from(prog, fn, bid, names, limit=12):
+    """Names (from `names`) of the calls reached first from block bid."""
+    from . import paths
+    seen = set()
+    st = [bid]
+    out = set()
+    while st and len(seen) < limit * 4:
+        b = st.pop()
+        if b in seen or b not in fn.blocks:
+            continue
+        seen.add(b)
+        hit = False
+        for s in fn.blocks[b].stmts:
+            for n in paths.call_names(prog, fn, s):
+                if n in names:
+                    out.add(n)
+                    hit = True
+        if not hit:
+            st.extend(fn.blocks[b].succ_ids())
     return out
